@@ -23,6 +23,9 @@ CLAIMED = {
  'C20': dict(technique='hypothesis folding on the seeding gate, whole-program who-may-write scan of the seeded flag and sequence numbers, exactly-once path rule (dominance, loop membership) for seq increments',
              text='Static: no path starts a handshake or marks the DRBG seeded when seeding failed; system seeders fail closed; each of the 8 record encrypt/decrypt methods increments its 64-bit sequence number exactly once per record, every init zeroes it, nobody else writes it. Does not decide distinctness/reproducibility of random values.',
              note='Trusted: clang/opt 14, debug-info layouts, sa/wmw.py store scan over all 295 units of the build.'),
+ 'C06': dict(technique='whole-program who-may-write scan, hypothesis folding of the failure latch / state word / buffer accessors, dominance rule for the half-duplex mode switch',
+             text='Static: only the fail function and the buffer-reset functions write err; nothing moves a failed engine out of FAILED; current_state reports CLOSED alone when closed and each flag iff its buffer accessor is non-NULL; accessors return NULL when failed / before application data is allowed; the shared-buffer mode switch is the first effect of recvrec_ack and sendpld_ack on every path. Does not decide the buffer-register arithmetic.',
+             note='Trusted: clang/opt 14, debug-info layouts, sa/wmw.py.'),
  'C10': dict(technique='hypothesis folding (LLVM constant/range propagation under an added assumption) + must-conjunct dataflow on SSA, per implementation, with negative controls',
              text='Static: each listed validity result / length condition of the RSA public, private, verify, decrypt, unpad and key-derivation functions (i15, i31, i32, i62), when it signals failure, forces the failure return on every path; each padding-structure contribution is a conjunct of the verdict (loop-aware must-dataflow). Decides rejection discipline, not arithmetic correctness.',
              note='Trusted: clang/opt 14, the obligation table (sa/checks/c10.py), debug-info variable names as site selectors. Host configuration only in quick tier.'),
@@ -50,8 +53,8 @@ m = dict(
   dict(name='IRF', path='tools/irdump.cc, sa/irf.py, sa/build.py', serves_properties=sorted(CLAIMED), kind_free_text='LLVM-IR facts (CFG, SSA, debug-info layouts) for every unit of the real build'),
   dict(name='T0', path='sa/t0.py', serves_properties=['C05'], kind_free_text='decoder + analyses for the T0 bytecode embedded in the generated interpreters'),
   dict(name='TAB', path='sa/tab.py', serves_properties=['C11', 'C12', 'C13'], kind_free_text='constants lifted from IR vs references generated from the standards'),
-  dict(name='WMW', path='sa/wmw.py', serves_properties=['C20'], kind_free_text='who-may-write / exactly-once structural rules over the whole program IR'),
-  dict(name='FOLD', path='sa/fold.py, sa/oblig.py', serves_properties=['C02', 'C05', 'C10', 'C11', 'C14', 'C20'], kind_free_text='hypothesis folding with opt-14 as abstract interpreter; must-conjunct dataflow'),
+  dict(name='WMW', path='sa/wmw.py', serves_properties=['C06', 'C20'], kind_free_text='who-may-write / exactly-once structural rules over the whole program IR'),
+  dict(name='FOLD', path='sa/fold.py, sa/oblig.py', serves_properties=['C02', 'C05', 'C06', 'C10', 'C11', 'C14', 'C20'], kind_free_text='hypothesis folding with opt-14 as abstract interpreter; must-conjunct dataflow'),
  ],
  checks=[dict(property_id=p, quick_cmd='./check %s --tier quick' % p, thorough_cmd='./check %s --tier thorough' % p,
               evidence_file='evidence/%s.json' % p, replay_cmd_template='./check replay {path}', engine='sa/checks/%s.py' % p.lower(),
